@@ -272,6 +272,9 @@ class Engine:
         for nm in ("msg_logger", "state_logger", "logger"):
             w.stubs[(MR, nm)] = noop_log
         w.stubs[(MR, "ComposableLogAdapter")] = native(lambda I_, a, k: noop_log)
+        noop_span = Opaque("current-span", {"noop": True, "default_attr": "method"})
+        w.stubs[(MR, "trace")] = Opaque("trace", {"methods": {"get_current_span": lambda *a: noop_span}, "isinstance_default": False})
+        w.stubs[(MR, "check_supports")] = native(lambda I_, a, k: a[0])
         w.stubs[(MR, "_ensure_event_loop_running")] = native(lambda I_, a, k: Opaque("thread", {"token": "thread", "attrs": {"ident": 1}}))
         w.stubs[(MR, "set_bluesky_event_loop")] = native(lambda I_, a, k: None)
         w.stubs[("bluesky._version", "__version__")] = "0.0"
